@@ -33,7 +33,7 @@ EXPLANATION = ("body VCs give the product's feature table as an algebraic expres
 def obligations(ctx):
     obs = ctx.verify(FUNCTIONS)
     obs = [o for o in obs if "citation" not in o.name]
-    return obs + lemmas(ctx)
+    return obs + ctx.part(lemmas)
 
 
 def lemmas(ctx):
